@@ -6,7 +6,8 @@
 From Coq Require Import ZArith QArith Qcanon List Bool String Ring_theory.
 Import ListNotations.
 Require Import TV.Base.EP TV.Base.EPSound TV.Model.Lane TV.Spec.RotGates TV.gen.Gen_instructions TV.gen.Gen_stim_gates
-  TV.Model.GateCheck TV.Proofs.GateProofs TV.Base.Amp TV.Proofs.CircuitProofs TV.Proofs.CircuitTheorem.
+  TV.Model.GateCheck TV.Proofs.GateProofs TV.Base.Amp TV.Proofs.CircuitProofs TV.Proofs.CircuitTheorem
+  TV.Proofs.DenseBridge TV.Proofs.KrausSem TV.Proofs.KrausCircuit.
 
 (* the finite table: every GATE_TABLE row whose name Stim documents as a unitary, in both target orders *)
 Theorem C05_gate_table : forallb check_row gate_table = true.
@@ -123,3 +124,18 @@ Example C05_circuit_inhabited :
   exists ops, circuit_ops [GA1 "H" 3; GA2 "CX" 3 0; GA2 "ISWAP" 7 3; GA1 "S_DAG" 0; GA2 "XCY" 0 7; GA1 "C_XYZ" 3]%string%nat = Some ops
               /\ (10 <= List.length ops)%nat.
 Proof. eexists. split; [vm_compute; reflexivity | vm_compute; repeat constructor]. Qed.
+
+(* ... and about the executable dense model: column j of the matrix `mat n ops` that the lane interpreter computes on n lanes
+   (the object compared with tsim's to_matrix on every run), read as an amplitude function, is the ordered product of the
+   documented gate matrices applied to |j>, times ONE unit phase for the whole matrix; any register size n *)
+Theorem C05_circuit_dense :
+  forall (R : Type) (rO rI : R) (radd rmul rsub : R -> R -> R) (ropp : R -> R),
+  ring_theory rO rI radd rmul rsub ropp eq ->
+  forall E : Qc -> R, (forall a b, E (a + b)%Qc = rmul (E a) (E b)) -> E 0%Qc = rI -> E 1%Qc = ropp rI ->
+  forall half : R, radd half half = rI -> forall ta tb tc : Qc,
+  forall n c ops, circuit_ops c = Some ops -> forallb (fun x => cinstr_lanes_ok n (CG x)) c = true ->
+    exists q : Qc, forall j,
+      st_of R rO rI radd rmul ropp E half ta tb tc n (nth j (mat n ops) [])
+      = Amp.scale R rmul (E q) (fold_left (fun s x => gapp_doc R rO rI radd rmul ropp E half ta tb tc x s) c (kpsi R (kbasis R rO rI n j)))
+      \/ (dim n <= j)%nat.
+Proof. exact circuit_mat_dense. Qed.
